@@ -945,6 +945,9 @@ func c08FormatTree(variant int) string {
 }
 
 func c08Run(payload string) string {
+	if payload == "TABLES" {
+		return "tables"
+	}
 	if strings.HasPrefix(payload, "FMT ") {
 		v, _ := strconv.Atoi(strings.TrimPrefix(payload, "FMT "))
 		return c08FormatTree(v)
